@@ -304,7 +304,12 @@ fn gauss_diag_case(c: &J) -> Result<usize, String> {
         let mut diag = verif::diag_mass_matrix(&mut math, &vec![1.0; d], &vec![0.0; d]);
         let settings = DiagAdaptExpSettings { store_mass_matrix: true, use_grad_based_estimate: grad_based };
         let mut s = <DiagAdaptStrategy<M> as MassMatrixAdaptStrategy<M>>::new(&mut math, settings, 100, 0);
+        let split = c["split"].as_u64().unwrap_or(0) as usize;
         for j in 0..n {
+            if split > 0 && j == split {
+                // foreground := background (every draw so far), fresh background
+                s.switch(&mut math);
+            }
             let x: Vec<f64> = (0..d).map(|i| mu[i] + sig[i] * z[j][i]).collect();
             let g: Vec<f64> = (0..d).map(|i| -z[j][i] / sig[i]).collect();
             verif::mm_feed(&mut math, &mut s, &x, &g, true);
